@@ -353,6 +353,9 @@ class Builder:
                 self.labels.add('leaf-trcl')
         c = md.cell(cid, mat, rho, expr, imp={'n': 1}, u=(u or None),
                     fill=fill, trcl=trcl)
+        if d(st.integers(0, 9)) == 0:
+            c['mat_zeros'] = d(st.integers(1, 2))
+            self.labels.add('material-number-with-leading-zeros')
         self.deck['cells'].append(c)
         return c
 
